@@ -396,3 +396,65 @@ def template_parts(expr, strip_str=True):
         elif not (k == "lit" and t == ""):
             merged.append((k, t))
     return merged
+
+
+# ---------------------------------------------------------------------------------------------------------------
+# integer sums and membership displays in one spelling
+# ---------------------------------------------------------------------------------------------------------------
+class _SumCanon(ast.NodeTransformer):
+    """a + 2 + b[3] + 4  ->  6 + a + b[3]  (constants folded and first, the other terms in the order of their text; subtraction of constants
+    folded too); `x in (a, b)` -> `x in [a, b]`.  Only + / - chains are touched: their value does not depend on the spelling."""
+
+    def _terms(self, e, sign, out):
+        if isinstance(e, ast.BinOp) and isinstance(e.op, (ast.Add, ast.Sub)):
+            self._terms(e.left, sign, out)
+            self._terms(e.right, sign if isinstance(e.op, ast.Add) else -sign, out)
+        else:
+            out.append((sign, self.visit(e)))
+
+    def visit_BinOp(self, node):
+        if not isinstance(node.op, (ast.Add, ast.Sub)):
+            self.generic_visit(node)
+            return node
+        terms = []
+        self._terms(node, 1, terms)
+        # only integer-looking chains: at least one int constant or a len()/index term and no string / bytes constant
+        if any(isinstance(t, ast.Constant) and not (isinstance(t.value, int) and not isinstance(t.value, bool)) for _, t in terms):
+            return ast.copy_location(self._rebuild_plain(terms), node)
+        const = sum(s * t.value for s, t in terms if isinstance(t, ast.Constant))
+        rest = sorted([(s, t) for s, t in terms if not isinstance(t, ast.Constant)], key=lambda st: (st[0] < 0, norm(st[1])))
+        if not any(isinstance(t, ast.Constant) for _, t in terms) and len(rest) == len(terms) and all(s > 0 for s, _ in rest) and False:
+            return node
+        acc = None
+        if const != 0 or not rest:
+            acc = ast.Constant(value=const)
+        for s, t in rest:
+            if acc is None:
+                acc = t if s > 0 else ast.UnaryOp(op=ast.USub(), operand=t)
+            else:
+                acc = ast.BinOp(left=acc, op=ast.Add() if s > 0 else ast.Sub(), right=t)
+        return ast.copy_location(acc, node)
+
+    def _rebuild_plain(self, terms):
+        acc = None
+        for s, t in terms:
+            acc = t if acc is None else ast.BinOp(left=acc, op=ast.Add() if s > 0 else ast.Sub(), right=t)
+        return acc
+
+    def visit_Compare(self, node):
+        self.generic_visit(node)
+        if len(node.ops) == 1 and isinstance(node.ops[0], (ast.In, ast.NotIn)) and isinstance(node.comparators[0], ast.Tuple):
+            node.comparators[0] = ast.copy_location(ast.List(elts=node.comparators[0].elts, ctx=ast.Load()), node.comparators[0])
+        return node
+
+
+def canon_sums(text):
+    """canonical spelling of the integer sums (indices, slice bounds, lengths) and membership displays inside an expression text"""
+    try:
+        e = ast.parse(text, mode="eval").body
+    except SyntaxError:
+        return text
+    try:
+        return ast.unparse(ast.fix_missing_locations(_SumCanon().visit(e)))
+    except Exception:
+        return text
